@@ -109,3 +109,8 @@ Qed.
 Lemma cg_rhs y z : cg_b V K vadd vsub smul dot sdiv Bl Astar lam y z = vadd (Astar y) (smul lam z).
 Proof. reflexivity. Qed.
 End CG.
+
+(* the tolerance exit comes after x, r and r.r of the same iteration have been updated: what is returned is an iterate
+   together with its own residual *)
+Lemma cg_exit_after_tie : cg_exit_after = [0; 1; 2]%nat.
+Proof. reflexivity. Qed.
